@@ -460,9 +460,11 @@ def oracle_rt(cin, rows):
 
 # --------------------------------------------------------------------------- known-finding classifiers
 def in_symdir_chain_class(cin):
-    """known_findings/C25.json 'symdir-chain': an entry is recorded beneath a symlink S1 of the set whose
-    resolved target is, or lies beneath, ANOTHER symlink S2 of the set (a chain of directory symlinks).
-    convert_archive moves the entry one hop only when S2 sorts after S1 (Spec_C25.chain_classb)."""
+    """known_findings/C25.json 'symdir-chain': resolving an entry takes more than one symlink hop -- the
+    entry is recorded beneath a symlink S1 of the set, and S1 itself lies beneath ANOTHER symlink S2 of the
+    set, or S1's resolved target is, or lies beneath, S2.  convert_archive rewrites each entry once (it
+    walks the symlinks in descending order and parks the moved entries in a list it does not look at
+    again), so the entry can be left beneath a symlink (Spec_C25.chain_classb)."""
     syms = [e for e in cin if e["k"] == "sym"]
     for s1 in syms:
         if not any(e["loc"].startswith(s1["loc"] + "/") for e in cin):
@@ -470,7 +472,8 @@ def in_symdir_chain_class(cin):
         t = s1["target"]
         rt = t if t.startswith("/") else os.path.normpath(os.path.join(s1["loc"], "../", t))
         for s2 in syms:
-            if s2["loc"] != s1["loc"] and (rt == s2["loc"] or rt.startswith(s2["loc"] + "/")):
+            if s2["loc"] != s1["loc"] and (rt == s2["loc"] or rt.startswith(s2["loc"] + "/")
+                                           or s1["loc"].startswith(s2["loc"] + "/")):
                 return True
     return False
 
@@ -586,7 +589,7 @@ def main(chk: Check):
             can_mknod = False
             chk.note("mknod not permitted here: device nodes are only exercised through foreign archives")
         shapes = ["plain", "plain", "missing-dirs", "no-inode", "same-inode-diff-attrs", "symdir", "symdir"]
-        n = 300 if chk.thorough else (126 if chk.fingerprint_changed else 42)   # changed anchors: 3x
+        n = 300 if chk.thorough else (105 if chk.fingerprint_changed else 35)   # changed anchors: 3x
         def run_set(i, cset, ids, shape, codec, tags):
             cin = [canon_in(x, ids) for x in cset]
             term = clist([c_entry(d) for d in cin], "entry")
@@ -657,7 +660,7 @@ def main(chk: Check):
 
         # ---- foreign archives
         fshapes = ["chain", "names", "symdir", "dangling", "unknown", "symdir", "chain"]
-        for i in range(150 if chk.thorough else (84 if chk.fingerprint_changed else 28)):
+        for i in range(150 if chk.thorough else (63 if chk.fingerprint_changed else 21)):
             ids = Ids()
             shape = fshapes[i % len(fshapes)]
             p = os.path.join(work, f"f{i}.tar")
